@@ -1853,7 +1853,18 @@ fn run_exchange(sim: &Sim, prop: &str, tier: Tier) -> Outcome {
         let (expect_err, expect_timeout) = (outer.err, outer.timeout);
 
         // ---- the exchange
-        x.link.borrow_mut().rx = queue.iter().cloned().collect();
+        // "time passes" in the wait callback: in some exchanges the last entries of the queue
+        // arrive only then (replies that come in while the caller waits) instead of sitting on
+        // the link from the start
+        let held_back = if !inner_runs && !queue.is_empty() && sim.chance(30) {
+            sim.probe("replies_arrive_during_the_wait");
+            1 + sim.draw(queue.len().min(4) as u32) as usize
+        } else {
+            0
+        };
+        let arrive_later: RefCell<Vec<RxItem>> = RefCell::new(queue[queue.len() - held_back..].to_vec());
+        let link_for_wait = x.link.clone();
+        x.link.borrow_mut().rx = queue[..queue.len() - held_back].iter().cloned().collect();
         x.link.borrow_mut().next_send_err = if loop_tx { None } else { Some(send_fails) };
         x.link.borrow_mut().get_calls.clear();
         let waits: Rc<Cell<u32>> = Rc::new(Cell::new(0));
@@ -1861,7 +1872,10 @@ fn run_exchange(sim: &Sim, prop: &str, tier: Tier) -> Outcome {
         let first_wait_seq: Rc<Cell<u64>> = Rc::new(Cell::new(0));
         let (w2, ws2, fw2, sim2) = (waits.clone(), wait_seq.clone(), first_wait_seq.clone(), sim.clone());
         let wait = move || {
-            sim2.event(EV_OP, 7, 0, || "wait callback runs".to_string());
+            let _g = crate::alloc::SimDomain::enter();
+            let late: Vec<RxItem> = std::mem::take(&mut *arrive_later.borrow_mut());
+            sim2.event(EV_OP, 7, late.len() as u64, || format!("wait callback runs ({} more entries arrive on the link meanwhile)", late.len()));
+            link_for_wait.borrow_mut().rx.extend(late);
             if w2.get() == 0 {
                 fw2.set(sim2.steps());
             }
